@@ -17,7 +17,11 @@ PROP = dict(
           "modes), escape_quotes; ports 0..65535 for eight hosts. Random (rapidcheck + Hypothesis): byte strings up to 2 KiB (uniform, "
           "special-character alphabets, xorshift filler), base64 texts built from valid encodings with 0..3 edits biased to the last quad, "
           "alphabet-only texts with 0..2 trailing '=' (non-zero trailing bits), mixed-alphabet texts; hosts up to 200 colon-free bytes. "
-          "Non-trivial: decode inputs containing padding or a character outside the alphabet; encode inputs with length mod 3 != 0; "
+          "Concurrent callers: 2..6 threads, each calling every function of the property (base64 encode/decode both alphabets incl. one "
+          "invalid text, rot13, escape_url both flags, escape_controls both modes, escape_quotes, render/parse_netloc) 100 (inputs up to 64 "
+          "bytes, mostly) or 10 times on its own input (uniform bytes, special-character alphabet, or three byte values of the thread's own) "
+          "and comparing with results fixed before the threads start. "
+          "Non-trivial: every concurrent-callers case; decode inputs containing padding or a character outside the alphabet; encode inputs with length mod 3 != 0; "
           "rot13 inputs containing an ASCII letter; escaper inputs in which at least one byte must be escaped; netloc pairs with port != 0. "
           "Distinct = distinct case encodings; the two hot loops (2^24 three-byte strings, 6^8 eight-character texts) register one entry "
           "per block, so the distinct count is a lower bound."),
@@ -28,6 +32,9 @@ PROP = dict(
                  "escape_url must leave RFC 3986 unreserved characters literal (equivalently: equal urllib.parse.quote with safe='=&' plus "
                  "'/' unless escape_slash) - this is what makes the design's mutant 'drop ~ from the safe set' observable",
                  "escape_quotes does not escape backslashes, so its output is decoded back only for backslash-free inputs",
+                 "the functions are pure functions of their arguments, hence reentrant: concurrent calls on different inputs each return the "
+                 "single-threaded result for their own input (expected values: the in-harness references for base64/rot13/netloc; for the escapers "
+                 "a single-threaded call that first passed the complete single-threaded oracle, so no particular hex-digit case is demanded)",
                  "glibc isalnum() in the C locale for bytes >= 0x80 passed as negative char (escape_url)"],
     min_evaluations_quick=1000000,
     engine="rapidcheck + exhaustive enumerators; Hypothesis + serve shim",
